@@ -164,6 +164,18 @@ def tb4(facts, rep):
                 m = info['fn'].rsplit('::', 1)[-1]
                 if m in ('delimiter', 'comment') and len(t['args']) >= 2:
                     got[m] = (const_byte_arg(b, t, 1), bb)
+        if ty.endswith('Reader'):
+            flex = None
+            for bb, t in b.calls():
+                info = call_info(t)
+                if info and info.get('crate') == 'csv' and info['fn'].rsplit('::', 1)[-1] == 'flexible' and len(t['args']) >= 2:
+                    flex = (const_byte_arg(b, t, 1), bb)
+            key = '%s::%s|csv-rejects-unequal-column-counts' % (ty, nm)
+            if flex is not None and flex[0] != 0:
+                rep.bad(rule, key, b.loc(flex[1]), 'the reader is configured flexible: a line with a wrong column count is '
+                                                   'accepted and silently coerced instead of being reported as an error')
+            else:
+                rep.ok(rule, key, '%s:%s' % (b.file, b.line), 'csv reader is strict about the column count')
         for m, v in exp.items():
             key = '%s::%s|csv-%s' % (ty, nm, m)
             if m not in got:
@@ -231,7 +243,42 @@ def tb4(facts, rep):
                                           'panics on every attribute' % (name, sorted(groups)))
 
 
+def ri4(facts, rep):
+    from . import effects, eng_ri
+    rule = 'RI-4'
+    rep.rule(rule, 'writer history independence: gff::Writer::write and bed::Writer::write may keep scratch state in the '
+                   'writer object only if its first mention in every call is a reset; configuration fields set by the '
+                   'constructor are never written by write (the csv writer `inner` is the output sink and is exempt)')
+    eff = effects.Effects(facts)
+    n = 0
+    for ty in ('io::gff::Writer', 'io::bed::Writer'):
+        b = facts.method(ty, 'write')
+        if b is None:
+            rep.missing(rule, ty + '::write', 'not found')
+            continue
+        n += 1
+        rep.analysed_body(b)
+        written = {effects.clean(p)[:1] for p in eff.param_writes(b, 1) if effects.clean(p)}
+        written = {w[0] for w in written if w and w[0] != 'inner'}
+        key = '%s::write|scratch-state-reset-per-call' % ty
+        if not written:
+            rep.ok(rule, key, '%s:%s' % (b.file, b.line), 'write() modifies no field of the writer besides the csv sink')
+            continue
+        bufs = {w: (w,) for w in sorted(written)}
+        ri = eng_ri.RI(facts, b, bufs, peel=False).run()
+        bad = sorted({v[0] for v in ri.violations})
+        never = [w for w in bufs if w not in {r[0] for r in ri.resets}]
+        if bad or never:
+            rep.bad(rule, key, '%s:%s' % (b.file, b.line),
+                    'write() keeps state in self.%s that is used before being reset on some path: a record can be written with '
+                    'data of the previous record' % ', self.'.join(sorted(set(bad) | set(never))))
+        else:
+            rep.ok(rule, key, '%s:%s' % (b.file, b.line), 'scratch fields %s reset before use on every path' % sorted(bufs))
+    rep.floor(rule, 'writers', n, 2)
+
+
 def run(facts, rep, ctx):
+    ri4(facts, rep)
     ef4(facts, rep)
     validator(facts, rep)
     tb4(facts, rep)
